@@ -2,6 +2,8 @@
   Driver/Fusion.lean — protocol verbs for blockwise fusion (C14) and the optimizer loops (C19).
 
     fusion fuse   dag=<nodes> root=<n> pol=<p> rev=<0|1>     -> "P passes=<k> <plan>"
+    fusion passes dag=<nodes> root=<n> pol=<p> rev=<0|1>     -> "N <k>"
+    fusion pass   dag=<nodes> root=<n> pol=<p> rev=<0|1>     -> "G group=.. deps=.. np=.. nd=.." | "G none"
     fusion task   dag=<nodes> node=<n> index=<i>            -> "T <graph>#<args>"
     fusion check  dag=<nodes> node=<n>                       -> OK | FAIL         (fusedOK)
     fusion group  dag=<nodes> root=<n> group=a,b,c           -> OK | FAIL         (groupOKb)
@@ -69,6 +71,25 @@ def handle : List String → Option String
         | some root, some p, some rev =>
           match fuseLoop (fun _ l => permute p rev l) (dag.length + 2) dag root 0 with
           | some (dag', root', n) => some s!"P passes={n} {rPlan dag' (dag'.length + 1) root'}"
+          | none => some "FUEL"
+        | _, _, _ => some "BAD params"
+      | "passes" =>
+        match getNat kv "root", getNat kv "pol", getBool kv "rev" with
+        | some root, some p, some rev =>
+          match fuseLoop (fun _ l => permute p rev l) (dag.length + 2) dag root 0 with
+          | some (_, _, n) => some s!"N {n}"
+          | none => some "FUEL"
+        | _, _, _ => some "BAD params"
+      | "pass" =>
+        match getNat kv "root", getNat kv "pol", getBool kv "rev" with
+        | some root, some p, some rev =>
+          match fusionPass (fun _ l => permute p rev l) dag root with
+          | some r =>
+            match r.group with
+            | some g =>
+              let f := fusedNode dag g
+              some s!"G group={joinWith "," (g.map toString)} deps={if f.deps.isEmpty then "-" else joinWith "," (f.deps.map toString)} np={f.npart} nd={f.ndim}"
+            | none => some "G none"
           | none => some "FUEL"
         | _, _, _ => some "BAD params"
       | "task" =>
